@@ -63,6 +63,14 @@ class UserAddEdge(ActionGroup):
                 )
             else:
                 merge_edge = list(self.tracks.graph.in_edges(target))[0]
+                # refuse a third child before removing anything
+                remaining = self.tracks.graph.out_degree(source)
+                if merge_edge[0] == source:
+                    remaining -= 1
+                if remaining > 1:
+                    raise InvalidActionError(
+                        f"Expected degree of 0 or 1 before adding edge, got {remaining}"
+                    )
                 warnings.warn(
                     f"Removing edge {merge_edge} to add new edge without merging.",
                     stacklevel=2,
